@@ -82,7 +82,17 @@ class RecomputingDict(MutableMapping[RuleKey, AbstractStrategy]):
     def __getitem__(self, key: RuleKey) -> AbstractStrategy:
         if self._flatten(key) not in self.rules:
             raise KeyError(key)
-        possible_labels = (key[0],) + key[1]
+        key_labels = (key[0],) + key[1]
+        # A strategy factory may have produced the rule while another class was
+        # expanded: the classes of the key are tried first, then all the others.
+        possible_labels = itertools.chain(
+            key_labels,
+            (
+                label
+                for label in range(len(self.classdb.label_to_info))
+                if label not in key_labels
+            ),
+        )
         for label, strat in itertools.product(possible_labels, self.pack):
             comb_class = self.classdb.get_class(label)
             if isinstance(strat, StrategyFactory):
